@@ -103,6 +103,18 @@ def native_cases():
     class Ratio(float, enum.Enum):
         HALF = 0.5
 
+    class Level(enum.Enum):                # a member whose VALUE is None / falsy: the member is not None, 0 or ''
+        UNSET = None
+        LOW = 1
+
+    class Zero(enum.Enum):
+        OFF = 0
+        ON = 1
+
+    class Blank(enum.Enum):
+        NONE = ''
+        A = 'a'
+
     class Task(pane.PaneBase):
         mode: Mode = Mode.FAST
         prio: Prio = Prio.LOW
@@ -136,6 +148,9 @@ def native_cases():
         (t.Dict[t.Optional[int], int], {None: 0, 1: 1}, 'optional-int keys'), (t.Dict[bool, int], {True: 1, False: 0}, 'bool keys'),
         (t.Dict[datetime.date, int], {datetime.date(2020, 1, 2): 1}, 'date keys'), (t.Dict[t.Tuple[int, int], str], {(1, 2): 'p'}, 'tuple keys'),
         (t.Dict[str, t.Dict[decimal.Decimal, int]], {'k': {decimal.Decimal('0.1'): 1}}, 'nested Decimal keys'),
+        (Level, Level.UNSET, 'enum member valued None'), (t.Optional[Level], Level.UNSET, 'optional enum, member valued None'), (t.Optional[Level], Level.LOW, 'optional enum with a None-valued member'),
+        (t.Union[Level, str], Level.UNSET, 'enum|str, member valued None'), (Zero, Zero.OFF, 'enum member valued 0'), (t.Optional[Zero], Zero.OFF, 'optional enum, member valued 0'),
+        (t.Union[Zero, str], Zero.OFF, 'enum|str, member valued 0'), (Blank, Blank.NONE, "enum member valued ''"), (t.Optional[Blank], Blank.NONE, "optional enum, member valued ''"),
         (Mode, Mode.SLOW, 'str-enum'), (Prio, Prio.HIGH, 'int-enum'), (Ratio, Ratio.HALF, 'float-enum'), (t.Optional[Mode], Mode.FAST, 'optional str-enum'),
         (t.Union[Mode, str], Mode.FAST, 'str-enum|str'), (Task, Task.make_unchecked(Mode.SLOW, Prio.HIGH, [Mode.FAST], {'k': Prio.LOW}), 'dataclass with mixin-enum fields'),
         (Acc, Acc(7), 'in_names without the Python name'), (Ev, Ev(3), 'in_rename only'),
@@ -159,6 +174,7 @@ def native_cases():
         (t.Union[fractions.Fraction, decimal.Decimal], [fractions.Fraction(1, 3)], 'Fraction|Decimal'),
         (t.Union[t.Tuple[int, ...], t.List[int]], [(1, 2)], 'tuple|list'),
         (t.Union[t.FrozenSet[int], t.Set[int]], [frozenset({3})], 'frozenset|set'),
+        (t.Optional[Level], [Level.UNSET, Level.LOW], 'optional enum with a None-valued member'), (t.Optional[Zero], [Zero.OFF, None], 'optional enum with a 0-valued member'),
         (t.Union[Color, str], [Color.RED, 'other'], 'enum|str'), (t.Union[bool, int], [True, 1, 0], 'bool|int'),
         (t.Optional[t.Union[int, P]], [P(1), 3, None], 'optional int|dataclass'),
         (t.Union[Shape, Circle], [Circle('c', 2.0), Shape('s')], 'base|subclass'), (t.Union[Circle, Shape], [Circle('c', 2.0), Shape('s')], 'subclass|base'),
